@@ -219,6 +219,9 @@ def gen_lang(rng: random.Random) -> Lang:
             o = rng.choice(comps)
             listed.append((o, [ty(rng.choice([0, 0, 1])) for _ in range(h.arity(o))]))
         top, bot = rng.random() < 0.6, rng.random() < 0.4
+        c1l = [o for o in comps if h.arity(o) == 1]
+        if c1l and rng.random() < 0.4:
+            listed.append((rng.choice(c1l), [(rng.choice(c1l), [ty(0)])]))      # K(K'(A)) canonical
     # the canonical types this gives (operators take and produce mostly those)
     try:
         L0 = Lang(h, listed, top, bot, [])
@@ -285,6 +288,13 @@ def gen_lang(rng: random.Random) -> Lang:
             ops.append({"name": name, "nvars": 0,
                         "params": [T_(3, g["params"][0], g["out"]), g["params"][0]],
                         "out": g["out"] if rng.random() < 0.6 else sch(oty())})
+    # a signature with a variable two levels down, x ** K(K'(x)): the result type is built by
+    # instantiation and must still be recognised as the canonical type it is
+    c1s = [o for o in comps if h.arity(o) == 1]
+    if c1s and rng.random() < 0.5:
+        k1, k2 = rng.choice(c1s), rng.choice(c1s)
+        ops.append({"name": f"f{len(ops)}", "nvars": 1, "params": [["V", 0]],
+                    "out": T_(k1, T_(k2, ["V", 0])), "cons": []})
     # a composite operator (a chain of two one-parameter operators) and something to pass it to
     ones = [o for o in ops if o["nvars"] == 0 and len(o["params"]) == 1 and not o.get("chain")
             and o["params"][0][1] != 3]
